@@ -26,7 +26,7 @@ def fleet_case(draw, broker):
             "restart": draw(st.booleans()), "tasks_limit": draw(st.sampled_from([1, 1000])),
             "fail_every": draw(st.sampled_from([0, 0, 3])), "horizon": 11.0,
             # further recurring jobs created at the same instant (same time base): their slots coincide for ever
-            "twins": draw(st.sampled_from([0, 0, 1, 2])), "tz": draw(st.sampled_from([None, None, "EST5", "IST-5:30", "NZT-13"]))}
+            "twins": draw(st.sampled_from([0, 0, 1, 2])), "tz": draw(st.sampled_from([None, None, *vclock.zones(3)]))}
     if all(x is None for x in case["stops"]):
         case["stops"][0] = 2.5
     if broker != "mem":
